@@ -8,11 +8,11 @@ RECURSE FOUND TARGETEQ.  Extraction never looks at local-variable names.
 import re
 from .core import (Obl, calls_in, callee_name, proj_field, pretty, term_mentions, term_calls, strip_payload, FLAVOURS)
 
-HASHSET = re.compile(r'^(std::collections::HashSet|ahash::AHashSet|ahash::HashSet|std::collections::BTreeSet)$')
-FRONT_ADT = re.compile(r'^(std::collections::VecDeque|std::vec::Vec|std::collections::BinaryHeap)$')
+HASHSET = re.compile(r'^(std::collections::HashSet|ahash::AHashSet|ahash::HashSet|std::collections::BTreeSet|std::collections::hash_set::HashSet|std::collections::btree_set::BTreeSet)$')
+FRONT_ADT = re.compile(r'^(std::collections::\w+|std::vec::Vec)$')   # any std collection of nodes can serve as a frontier; FRONT judges which
 NODE_ITER_T = re.compile(r'::node::(IterOut|IterIn|NodeIterator)$')
-TAKE_M = {'pop_front', 'pop_back', 'pop'}
-ADD_M = {'push_back', 'push_front', 'push'}
+TAKE_M = {'pop_front', 'pop_back', 'pop', 'pop_first', 'pop_last'}
+ADD_M = {'push_back', 'push_front', 'push', 'insert'}
 
 
 def key_of(t):
@@ -27,23 +27,33 @@ def _ref_mut_to(F, tyid):
 
 
 def kernel_params(F, b):
-    """(visited param, frontier param, result param|None) or None"""
+    """(visited param, frontier param, result param|None) or None.
+    visited = `&mut <set>` whose elements are keys (no Node inside); frontier = `&mut <std collection>` of Nodes (no Edge inside);
+    result = `&mut Vec<Edge>`.  A builder method that has two node collections but no key set is still a kernel
+    (returned with visited = -1) so that the role check can say what is wrong instead of the kernel silently vanishing."""
     vis = front = result = None
+    node_colls = []
     for i in range(1, b['argc'] + 1):
         inner, iid = _ref_mut_to(F, b['locals'][i])
         if inner is None or inner['k'] != 'adt':
             continue
-        if HASHSET.match(inner['p']):
+        has_node = F.ty_has_adt(iid, r'::node::Node$')
+        has_edge = F.ty_has_adt(iid, r'::node::Edge$')
+        if HASHSET.match(inner['p']) and not has_node:
             vis = i
         elif FRONT_ADT.match(inner['p']):
-            has_node = F.ty_has_adt(iid, r'::node::Node$')
-            has_edge = F.ty_has_adt(iid, r'::node::Edge$')
             if has_edge and inner['p'] == 'std::vec::Vec':
                 result = i
-            elif has_node:
-                front = i
-    if vis and front:
-        return vis, front, result
+            elif has_node and not has_edge:
+                node_colls.append((i, inner['p']))
+    if vis and node_colls:
+        return vis, node_colls[0][0], result
+    if not vis and len(node_colls) >= 2 and re.search(r'::node::algo::\w+::\w+$', b.get('impl_self_q', '')):
+        # the "visited" collection holds nodes: membership is then decided by Node's Eq/Ord, i.e. by *value* for ordered sets
+        sets = [x for x in node_colls if re.search(r'Set$', x[1])]
+        fronts = [x for x in node_colls if x not in sets[:1]]
+        if sets and fronts:
+            return -sets[0][0], fronts[0][0], result
     return None
 
 
@@ -73,6 +83,8 @@ def discover(F):
     for q, b in sorted(F.bodies.items()):
         if b['kind'] == 'Closure':
             continue
+        if q in getattr(F, 'absorbed', ()):
+            continue   # a helper that exists only as part of its calling kernel(s)
         p = kernel_params(F, b)
         if p:
             ks.append(analyse(F, b, p))
@@ -91,6 +103,17 @@ def analyse(F, b, params):
     K.missing = []   # mandatory roles that could not be found
     K.notes = []
     vis, front, result = params
+    if vis < 0:
+        K.vis, K.front, K.result = -vis, front, result
+        K.sites = {}
+        K.FAR = K.edge_term = K.item = None
+        K.front_adt = _ref_mut_to(F, b['locals'][front])[0]['p']
+        K.front_reverse = False
+        K.recurse = []
+        K.rets = K.founds = []
+        K.missing.append('VISITED: the visited collection %s holds nodes, not keys (set membership of nodes follows their ordering by *value*, so two nodes with equal values count as one)' %
+                         F.types[b['locals'][-vis]]['s'])
+        return K
     K.vis, K.front, K.result = vis, front, result
     fin, fid = _ref_mut_to(F, b['locals'][front])
     K.front_adt = fin['p']
@@ -259,12 +282,21 @@ def analyse(F, b, params):
         K.sites['RECURSE'] = recs[0][0]
     # FOUND blocks: _0 = true / Some(x) / propagate
     founds = []
+    regions = b.get('inl_regions', [])
+    ret_locals = {0} | {r['ret'] for r in regions}
     for bi, bb in enumerate(b['blocks']):
         if bb['cleanup'] or bi not in cfg.reach:
             continue
         for s in bb['stmts']:
-            if s['k'] == 'assign' and s['dst']['l'] == 0 and not s['dst']['p']:
+            if s['k'] == 'assign' and s['dst']['l'] in ret_locals and not s['dst']['p']:
                 rv = s['rv']
+                if s['dst']['l'] == 0 and rv['k'] == 'use' and rv['ops'][0]['k'] == 'const' and any(
+                        cfg.dominates(r['entry'], bi) and not (r['entry'] <= bi < r['end']) and _region_decides(b, r) for r in regions):
+                    # the caller returning what an inlined helper decided
+                    founds.append((bi, 'propagate', None))
+                    continue
+                if s['dst']['l'] != 0 and rv['k'] == 'use' and rv['ops'][0]['k'] in ('move', 'copy'):
+                    continue
                 if rv['k'] == 'use' and rv['ops'][0]['k'] == 'const':
                     v = rv['ops'][0]['v']
                     if v in ('const true', 'true'):
@@ -292,12 +324,35 @@ def analyse(F, b, params):
         for x, y in ((a0, a1), (a1, a0)):
             if x == KEYFAR and term_mentions(y, lambda z: z == ('param', 1)):
                 te, fe = cfg.bool_edges(t['dst']['l'], t['target'])
+                if te is None:
+                    # the comparison result travels (helper return value, `match .. None => false`): branch on a value that is this
+                    # call, or this call joined with constant false -- its true edge still implies the comparison was true
+                    me = ('call', callee_name(t), tuple(pv.of_operand(a) for a in t['args']), bi)
+                    for sb in sorted(cfg.reach):
+                        st = b['blocks'][sb]['term']
+                        if st['k'] != 'switch':
+                            continue
+                        term = pv.of_operand(st['op'])
+                        alts = list(term[1]) if isinstance(term, tuple) and term and term[0] == 'join' else [term]
+                        if me in alts and all(a == me or a == ('const', 'false') for a in alts):
+                            z = [tg for v, tg in st['targets'] if v == 0]
+                            if z:
+                                te, fe = (sb, st['otherwise']), (sb, z[0])
                 if t['callee'].endswith('::ne'):
                     te, fe = fe, te
                 K.teq_true = te
                 K.teq_site = bi
                 K.teq_other = y
     return K
+
+
+def _region_decides(b, r):
+    """the inlined helper itself returns constant true somewhere (it contains the FOUND decision)"""
+    for bi in range(r['entry'], r['end']):
+        for s in b['blocks'][bi]['stmts']:
+            if s['k'] == 'assign' and s['dst']['l'] == r['ret'] and not s['dst']['p'] and s['rv']['k'] == 'use' and s['rv']['ops'][0].get('v') in ('true', 'const true'):
+                return True
+    return False
 
 
 def has_target_field(F, K):
